@@ -31,10 +31,10 @@ KINDS = {"v": "vehicles", "r": "requests", "s": "stations", "b": "bases"}
 
 
 class Universe:
-    def __init__(self, nv=2, nr=2, ns=1, nb=1):
+    def __init__(self, nv=2, nr=2, ns=1, nb=1, search_res: int = 7):
         S = sites()
         self.cells = [S["A"], S["N1"], S["X1"]]  # g1, g2 (same search cell as g1), g3 (other search cell)
-        self.cfg = make_config()
+        self.cfg = make_config(search_res=search_res)
         self.env = make_env(self.cfg)
         self.rn = HaversineRoadNetwork(sim_h3_resolution=15)
         self.ids = [f"v{i}" for i in range(nv)] + [f"r{i}" for i in range(nr)] + [f"s{i}" for i in range(ns)] + [f"b{i}" for i in range(nb)]
@@ -100,7 +100,25 @@ class Universe:
         raise ValueError(op)
 
 
+def prime(search_res: int = 9):
+    """exercise every index operation once under ANOTHER search resolution first, in this very process: anything the
+    library remembers across SimulationStates (module-level memos keyed without the resolution) then shows up as a wrong
+    search index in the closure below, on every run"""
+    U = Universe(1, 1, 1, 1, search_res=search_res)
+    sim = U.empty
+    for eid in U.ids:
+        for seq in ((("add", 0), ("modify", 1), ("modify", 2), ("modify", 0), ("remove", -1)),):
+            for op, ci in seq:
+                try:
+                    r = U.apply(sim, op, eid, ci)
+                    if not isinstance(r, Failure):
+                        sim = r.unwrap()
+                except Exception:
+                    pass
+
+
 def closure(nv, nr, ns, nb, rot: int = 0):
+    prime()
     U = Universe(nv, nr, ns, nb)
     start = U.empty
     seen = {U.abstract(start): start}
